@@ -360,7 +360,7 @@ def i_DIV1(ins, fmap):
     newq1 = tst(fmap(M), newq1_1, newq1_0)
     # div1 step result:
     fmap[Rn] = tst(oldq, rn1, rn0)
-    fmap[Q] = tst(oldq, newq0, newq1)
+    fmap[Q] = tst(oldq, newq1, newq0)
     fmap[T] = fmap(Q == M)
 
 
